@@ -1,7 +1,8 @@
 import PrimaiteModel.Model.Schema
 import PrimaiteModel.Gen.RequestSchema
 import PrimaiteModel.Gen.ActionTemplates
-open Primaite Primaite.Schema
+import PrimaiteModel.Gen.RequestValidators
+open Primaite Primaite.Schema Primaite.Guards
 open Primaite.Request (Key)
 
 /-! Line protocol (R-schema):
@@ -33,11 +34,72 @@ partial def parseInv : List String → Option (Inv × List String)
   | [] => none
 end
 
-def showAtom : VAtom → String
-  | .nodeIsOn => "nodeIsOn" | .nodeIsOff => "nodeIsOff" | .nicEnabled => "nicEnabled" | .nicDisabled => "nicDisabled"
-  | .serviceState s => "serviceState:" ++ s | .appState s => "appState:" ++ s
-  | .folderExists => "folderExists" | .folderNotDeleted => "folderNotDeleted" | .fsFileExists => "fsFileExists"
-  | .folderFileExists => "folderFileExists" | .fileNotDeleted => "fileNotDeleted" | .groupMember => "groupMember"
+/-! `veval` (rig R-guards): the TRANSLATED `__call__` of a validator class on an abstracted component
+  veval <atom> <node state> <nic enabled> <service state> <application state> <ctx groups | -> <allowed groups | ->
+        FS <n> <folder>* <m> <folder>*  FOLDER <folder>  -- <option>*
+  <folder> = <name> <deleted> <n> (<file name> <deleted>)* <m> (<file name> <deleted>)*      -> 1 | 0 -/
+def parseAtom (t : String) : Option VAtom :=
+  match t.splitOn ":" with
+  | ["nodeIsOn"] => some .nodeIsOn | ["nodeIsOff"] => some .nodeIsOff
+  | ["nicEnabled"] => some .nicEnabled | ["nicDisabled"] => some .nicDisabled
+  | ["serviceState", s] => some (.serviceState s) | ["appState", s] => some (.appState s)
+  | ["folderExists"] => some .folderExists | ["folderNotDeleted"] => some .folderNotDeleted
+  | ["fsFileExists"] => some .fsFileExists | ["folderFileExists"] => some .folderFileExists
+  | ["fileNotDeleted"] => some .fileNotDeleted | ["groupMember"] => some .groupMember
+  | _ => none
+
+def parseFiles : Nat → List String → Option (List FileS × List String)
+  | 0, ts => some ([], ts)
+  | n + 1, name :: del :: ts =>
+    match parseBool del, parseFiles n ts with
+    | some d, some (fs, r) => some (⟨decKey name, d⟩ :: fs, r)
+    | _, _ => none
+  | _, _ => none
+
+def parseFolder : List String → Option (FolderS × List String)
+  | name :: del :: n :: ts =>
+    match parseBool del, n.toNat? with
+    | some d, some n =>
+      match parseFiles n ts with
+      | some (files, m :: ts') =>
+        match m.toNat? with
+        | some m => (parseFiles m ts').map (fun (dfiles, r) => (⟨decKey name, d, files, dfiles⟩, r))
+        | none => none
+      | _ => none
+    | _, _ => none
+  | _ => none
+
+def parseFolders : Nat → List String → Option (List FolderS × List String)
+  | 0, ts => some ([], ts)
+  | n + 1, ts =>
+    match parseFolder ts with
+    | some (f, ts') => (parseFolders n ts').map (fun (fs, r) => (f :: fs, r))
+    | none => none
+
+def parseGroups (t : String) : Option (List String) := if t = "-" then none else some ((t.splitOn ",").filter (· ≠ ""))
+
+def veval : List String → Option Bool
+  | atom :: nodeSt :: nicEn :: svcSt :: appSt :: ctxG :: allowed :: "FS" :: n :: ts =>
+    match parseAtom atom, parseBool nicEn, n.toNat? with
+    | some a, some en, some n =>
+      match parseFolders n ts with
+      | some (folders, m :: ts1) =>
+        match m.toNat? with
+        | some m =>
+          match parseFolders m ts1 with
+          | some (dfolders, "FOLDER" :: ts2) =>
+            match parseFolder ts2 with
+            | some (folder, "--" :: opts) =>
+              let self : VSelf := { node := ⟨nodeSt⟩, network_interface := ⟨en⟩, service := ⟨svcSt⟩, application := ⟨appSt⟩,
+                                    file_system := ⟨folders, dfolders⟩, folder := folder,
+                                    allowed_groups := ((parseGroups allowed).getD []).map (fun g => ⟨g⟩) }
+              some (Gen.RequestValidators.eval a self (opts.map decKey) (parseGroups ctxG))
+            | _ => none
+          | _ => none
+        | none => none
+      | _ => none
+    | _, _, _ => none
+  | _ => none
 
 def parseAssign (toks : List String) : Option (List (String × String)) :=
   toks.mapM (fun t => match t.splitOn "=" with
@@ -49,6 +111,10 @@ def step (inv : Inv) : List String → Inv × String
     match parseInv toks with
     | some (i, []) => (i, "ok")
     | _ => (inv, "bad-inv")
+  | "veval" :: toks =>
+    match veval toks with
+    | some b => (inv, showBool b)
+    | none => (inv, "bad-veval")
   | "route" :: idx :: cls :: toks =>
     match idx.toNat?, parseAssign toks with
     | some i, some asg =>
@@ -60,7 +126,7 @@ def step (inv : Inv) : List String → Inv × String
         let res := resolves S c t
         let pr := present S (pickNode S c) rootMgr inv t.segs ρ
         let path := (instantiate ρ t.segs).map encKey
-        let vals := (routeVals S rootMgr inv t.segs ρ).map (fun v => if v.isEmpty then "-" else ",".intercalate (v.map showAtom))
+        let vals := (routeVals S rootMgr inv t.segs ρ).map (fun v => if v.isEmpty then "-" else ",".intercalate (v.map VAtom.show))
         (inv, s!"resolves={showBool res} | present={showBool pr} | path={" ".intercalate path} | vals={";".intercalate vals}")
       | none => (inv, "bad-template-index")
     | _, _ => (inv, "bad-op")
